@@ -177,6 +177,18 @@ def library_nestings(r, n):
         for op in probe_ops(files, tid):
             sc.runs.append("probe " + " ".join(op))
         scs.append(sc)
+        # the same operations on STALE memo tables: every memo (imported fixtures, available fixtures, cycles) is
+        # filled first, then one re-analysis bumps the version — the probed operation finds an entry and recomputes
+        st = conc.Scenario("p%ds" % i)
+        st.texts, st.disk, st.setup = sc.texts, list(sc.disk), [list(o) for o in sc.setup]
+        for p in files:
+            st.setup += [["imported", p], ["avail", p], ["cyclesin", p]]
+        st.setup += [["cycles"], ["analyze", "test_a.py", tid["test_a.py"]]]
+        st.threads = {1: [["cycles"]]}
+        for op in probe_ops(files, tid):
+            if op[0] in ("imported", "avail", "cyclesin", "cycles", "goto", "mismatch", "unused", "undeclared", "refs"):
+                st.runs.append("probe " + " ".join(op))
+        scs.append(st)
     res, rc, dt = conc.run_scenarios(scs, tag="c12p")
     if rc != 0:
         r.broken.append("concurrency harness exited with status %s while probing single operations" % rc)
